@@ -210,6 +210,10 @@ class _World:
             except ValueError:
                 i = -1
             self.events.append([i, len(list(state_variables))])
+            # "reported ... (marking the device unavailable when it is unreachable)": what the consumer sees of the device
+            # WHEN it is told about the failure is part of the report
+            self.cb_views.append(bool(self.device.available))
+        self.cb_views = []
         self.profile.on_event = on_event
 
     # -------------------------------------------------------------------------------------------- publisher
@@ -326,6 +330,7 @@ class _World:
         self.seen = len(self.reqs)
         ev = self.events[self.events_seen:]
         self.events_seen = len(self.events)
+        views, self.cb_views = self.cb_views, []
         routed = []
         for n in range(self.nsid):
             s = h.service_for_sid(f"uuid:{n}")
@@ -352,7 +357,10 @@ class _World:
                 "out": [i for i, r in enumerate(self.reqs) if not r[5].done()],
                 "routed": routed, "subs": subs,
                 "live": [[k, (None if v is None else int(v))] for k, v in sorted(self.pub.items())],
-                "lapsed": self.lapsed, "events": ev, "avail": bool(self.device.available),
+                "lapsed": self.lapsed, "events": ev,
+                # a report made while the device still read as available, although it is unavailable once the step is
+                # over, told the consumer the wrong thing: the availability as reported is the one observed
+                "avail": True if (True in views and not self.device.available) else bool(self.device.available),
                 "calls": [self._status(t) for t in self.user_tasks], "rtask": rts,
                 "idle": len(self.loop._ready) == 0, "subscribed": bool(p.is_subscribed)}
 
